@@ -3,6 +3,7 @@ package main
 import (
 	"bytes"
 	"fmt"
+	"github.com/taskctl/taskctl/pkg/runner"
 	"math/rand"
 	"os"
 	"path/filepath"
@@ -423,4 +424,74 @@ func runC19(col *Collector, tier string, seed int64) {
 		}
 	}
 	parallel(len(sjobs), 8, func(i int) { formatSequenceCase(col, dir, sjobs[i].f, sjobs[i].t) })
+	recordedAcrossFormats(col)
+}
+
+// what a run records about the task (status fields and the captured stdout / stderr) under each of the three
+// formats: the format is presentation only
+func recordedAcrossFormats(col *Collector) {
+	type outcome struct {
+		name string
+		mk   func() *task.Task
+	}
+	outcomes := []outcome{
+		{"success", func() *task.Task { return task.FromCommands("echo out; echo err >&2") }},
+		{"failure-with-stderr", func() *task.Task {
+			return task.FromCommands("echo out; echo first >&2; echo 'no such file' >&2; exit 3")
+		}},
+		{"failure-silent", func() *task.Task { return task.FromCommands("exit 4") }},
+		{"failure-stdout-only", func() *task.Task { return task.FromCommands("echo only-out; exit 5") }},
+		{"allowed-failure", func() *task.Task {
+			t := task.FromCommands("echo a; echo oops >&2; exit 6", "echo b")
+			t.AllowFailure = true
+			return t
+		}},
+		{"skipped", func() *task.Task { t := task.FromCommands("echo never"); t.Condition = "false"; return t }},
+		{"before-fails", func() *task.Task {
+			t := task.FromCommands("echo never")
+			t.Before = []string{"echo hook >&2; exit 2"}
+			return t
+		}},
+	}
+	for _, o := range outcomes {
+		rec := map[string]string{}
+		cs := Case{Replay: "recorded result of outcome " + o.name + " under raw / prefixed / cockpit", Tags: []string{"recorded-across-formats"}, NonTrivial: true}
+		for _, f := range []string{output.FormatRaw, output.FormatPrefixed, output.FormatCockpit} {
+			t := o.mk()
+			t.Name = "rec"
+			r, err := runner.NewTaskRunner()
+			if err != nil {
+				cs.Fail, cs.Sig = err.Error(), "c19-setup"
+				break
+			}
+			r.Stdout, r.Stderr = devNull{}, devNull{}
+			r.OutputFormat = f
+			done := make(chan error, 1)
+			go func() {
+				defer func() {
+					if p := recover(); p != nil {
+						done <- fmt.Errorf("PANIC: %v", p)
+					}
+				}()
+				done <- r.Run(t)
+			}()
+			var rerr error
+			select {
+			case rerr = <-done:
+			case <-time.After(20 * time.Second):
+				cs.Fail, cs.Sig = "the run did not return under format "+f, "c19-format-hang"
+			}
+			if cs.Fail != "" {
+				break
+			}
+			rec[f] = fmt.Sprintf("err=%v errored=%v skipped=%v exit=%d stdout=%q stderr=%q", rerr != nil, t.Errored, t.Skipped, t.ExitCode, t.Log.Stdout.String(), t.Log.Stderr.String())
+		}
+		cs.Impl = rec[output.FormatRaw]
+		for _, f := range []string{output.FormatPrefixed, output.FormatCockpit} {
+			if cs.Fail == "" && rec[f] != rec[output.FormatRaw] {
+				cs.Fail, cs.Sig = fmt.Sprintf("recorded result under %s: %s; under raw: %s", f, rec[f], rec[output.FormatRaw]), "c19-recorded-result"
+			}
+		}
+		col.Add(cs)
+	}
 }
